@@ -26,6 +26,54 @@ ARITH = [("_add_sub", False), ("_iadd_sub", True), ("__floordiv__", False), ("__
          ("_mul_div", False), ("_imul_div", True), ("__rtruediv__", False), ("__rpow__", False)]
 
 
+
+def exponent_rule(ck, ix):
+    """__pow__/__ipow__: the exponent may itself be a quantity.  (a) the 0/1 shortcuts compare the exponent *as given*
+    (`other == 1` goes through Quantity.__eq__ and is unit aware); comparing its bare magnitude would take 1 percent or
+    1 second for the number 1.  (b) the value used as exponent is the root-unit magnitude of a dimensionless quantity,
+    the coerced bare number, or the constant 0; a dimensional exponent raises."""
+    for q in ("PlainQuantity.__pow__", "PlainQuantity.__ipow__"):
+        fi = ix.func(PQ, q)
+        ck.analysed(fi)
+        defs = defs_of(fi)
+        n = 0
+        for c in walk_local(fi.node):
+            if isinstance(c, ast.Compare) and len(c.ops) == 1 and isinstance(c.ops[0], (ast.Eq, ast.NotEq)):
+                sides = [c.left, c.comparators[0]]
+                consts = [x for x in sides if isinstance(x, ast.Constant) and x.value in (0, 1)]
+                others = [x for x in sides if not isinstance(x, ast.Constant)]
+                if not consts or not others:
+                    continue
+                o = others[0]
+                roots = defs.roots(o)
+                if not any(r == "other" or r.startswith("other.") for r in roots):
+                    continue
+                n += 1
+                ck.check(isinstance(o, ast.Name) and o.id == "other", "G-TAG", f"{q}|exponent-shortcut-is-unit-aware|{norm(c)}", fi.loc(c), "the exponent is compared as given (unit aware)",
+                         f"`{norm(c)}` compares the bare magnitude of the exponent: an exponent of 1 percent (or 1 second) is taken for the number 1")
+        if n == 0:
+            ck.note(f"{q}: no 0/1 shortcut on the exponent")
+        exps = []
+        for b in walk_local(fi.node):
+            if isinstance(b, ast.BinOp) and isinstance(b.op, ast.Pow) and ("_units" in norm(b.left) or "_magnitude" in norm(b.left)) and "self" in norm(b.left):
+                exps.append((b, b.right))
+            if isinstance(b, ast.AugAssign) and isinstance(b.op, ast.Pow) and "self._magnitude" in norm(b.target):
+                exps.append((b, b.value))
+        for b, x in exps:
+            if not isinstance(x, ast.Name) or x.id in defs.params:
+                continue  # the raw parameter is only used on paths where it was shown to be a bare number/array
+            vals = sorted({norm(v) for (v, kind, st) in defs.defs.get(x.id, []) if v is not None})
+            allowed = all(v == "0" or v.startswith("_to_magnitude(other") or v in ("other.to_root_units().magnitude", "other.to_root_units()._magnitude", "other.m_as('')", "other.m_as(self.UnitsContainer())") for v in vals)
+            ck.check(bool(vals) and allowed, "G-TAG", f"{q}|exponent-is-root-magnitude-or-bare-number|{norm(b)[:40]}", fi.loc(b), f"exponent in {vals}",
+                     f"the exponent `{x.id}` of `{norm(b)}` is one of {vals}: a quantity exponent must be reduced to its dimensionless root-unit magnitude (1 percent -> 0.01), a bare number coerced with _to_magnitude")
+        # a dimensional exponent raises
+        cfg = cfg_of(fi)
+        tests = [nd.id for nd in cfg.nodes if nd.kind == "test" and norm(nd.ast) == "not getattr(other, 'dimensionless', True)"]
+        ck.check(bool(tests), "G-DOM", f"{q}|dimensional-exponent-tested", fi.loc(), "a dimensional exponent is detected", f"{q} no longer tests for a dimensional exponent")
+        for t in tests:
+            p = edge_leads_only_to_raise(cfg, t, "t")
+            ck.check(p is None, "G-DOM", f"{q}|dimensional-exponent-raises|L{cfg.nodes[t].lineno - fi.node.lineno}", fi.loc(cfg.nodes[t].ast), "a dimensional exponent raises DimensionalityError", "a dimensional exponent does not raise", witness(cfg, p))
+
 def run(ck, ix, tier):
     ck.rule("G-TAG", "abstract interpretation over the unit-tag domain: combined magnitudes carry equal unit tags")
     n_paths = {}
@@ -154,4 +202,7 @@ def run(ck, ix, tier):
             p = undominated(cfg, [o], gate)
             ck.check(bool(gate) and p is None, "G-DOM", f"{q}|dimensionality-gate-dominates-combination", fi.loc(cfg.nodes[o].ast), "two quantities are only combined after the dimensionality test",
                      "two quantity magnitudes can be combined without the dimensionality test", witness(cfg, p))
+    exponent_rule(ck, ix)
+    from .C05 import eq_zero_rule
+    eq_zero_rule(ck, ix)  # equality is one of the operators of C03
     return EXPLANATION
